@@ -25,6 +25,7 @@ def gen_desc(verif_seed: int, i: int, tier: str = "quick") -> dict:
         p_link_read_del=0.6,
         p_header_param=0.15,
         p_nested=0.5,
+        p_suffix_link=0.5,
     )
     behaviour: list[dict] = []
     r = rng.random()
@@ -38,6 +39,13 @@ def gen_desc(verif_seed: int, i: int, tier: str = "quick") -> dict:
                 continue
             trig = {"always": True} if rng.random() < 0.5 else {"mod": 2, "rem": rng.randrange(2)}
             behaviour.append({"op": rng.choice(cands), "trigger": trig, "deviation": kind})
+    # universes with a link to an *extended* identifier ("r1" -> "r1s"): make that other resource answer (stale read),
+    # so that identity confusion between r1 and r1s becomes observable right after a delete of r1
+    for c in udesc["collections"]:
+        if any("}s" in str(l["params"]) for l in c["links"]) and rng.random() < 0.6:
+            behaviour = [b for b in behaviour if b["deviation"] != "stale_read"] + [
+                {"op": f"GET /{c['name']}/{{id}}", "trigger": {"always": True}, "deviation": "stale_read"}
+            ]
     cfg = {
         "entry": "engine",
         "phases": ["stateful"],
